@@ -213,6 +213,7 @@ struct Out {
     text: String,
     line: usize,
     regions: Vec<Region>,
+    closure_items: Vec<String>,
 }
 impl Out {
     fn push(&mut self, s: &str) {
@@ -376,7 +377,10 @@ fn emit_fn(d: &FnDirective, srcs: &mut Sources, out: &mut Out, stats: &mut norm:
         norm::from_stmt(&mut block, &pfx.replace('~', " "), &desc, stats);
     }
     let before_pfx: Vec<String> = d.before.iter().map(|b| b.0.clone()).collect();
-    let (nloops, before_hits) = norm::normalise(&mut block, &d.opts, stats, &desc, &before_pfx);
+    let (nloops, before_hits, nclosures) = norm::normalise(&mut block, &d.opts, stats, &desc, &before_pfx);
+    if nclosures > 0 {
+        out.closure_items.push(item_name.clone());
+    }
     for (k, h) in before_hits.iter().enumerate() {
         if *h != 1 {
             die("lost-anchor", &format!("`before {}` matches {} statements in {}", before_pfx[k], h, desc));
@@ -594,7 +598,7 @@ fn main() {
     }
     let mut lines: Vec<String> = Vec::new();
     expand(&PathBuf::from(need("template")), &mut lines, 0, &[]);
-    let mut out = Out { text: String::new(), line: 0, regions: Vec::new() };
+    let mut out = Out { text: String::new(), line: 0, regions: Vec::new(), closure_items: Vec::new() };
     let mut stats = norm::Stats::default();
     let mut cur_fn: Option<(FnDirective, usize)> = None;
     // section within fn directive
@@ -733,7 +737,7 @@ fn main() {
                     die("template", &format!("bad items directive: {}", raw));
                 }
                 let opts = parse_opts(&parts[1..]);
-                let kind = if opts.contains_key("structs") { "struct" } else if opts.contains_key("enums") { "enum" } else { die("template", "items: structs|enums") };
+                let kind = if opts.contains_key("structs") { "struct" } else if opts.contains_key("enums") { "enum" } else if opts.contains_key("consts") { "const" } else { die("template", "items: structs|enums|consts") };
                 let except: Vec<String> = opts.get("except").map(|e| e.split(',').map(|x| x.to_string()).collect()).unwrap_or_default();
                 let names: Vec<String> = {
                     let file = srcs.get(parts[0]);
@@ -742,6 +746,7 @@ fn main() {
                     items.iter().filter_map(|it| match (kind, it) {
                         ("struct", syn::Item::Struct(s)) => Some(s.ident.to_string()),
                         ("enum", syn::Item::Enum(s)) => Some(s.ident.to_string()),
+                        ("const", syn::Item::Const(s)) => Some(s.ident.to_string()),
                         _ => None,
                     }).filter(|n| !except.contains(n)).collect()
                 };
@@ -815,7 +820,10 @@ fn main() {
             if k + 1 < out.regions.len() { "," } else { "" }
         );
     }
-    m.push_str("  ],\n  \"normalisations\": {\n");
+    m.push_str("  ],\n  \"unspecified_closures\": [");
+    let ci: Vec<String> = out.closure_items.iter().map(|c| format!("\"{}\"", escape_json(c))).collect();
+    m.push_str(&ci.join(", "));
+    m.push_str("],\n  \"normalisations\": {\n");
     let n = stats.counts.len();
     for (k, (name, c)) in stats.counts.iter().enumerate() {
         let _ = write!(m, "    \"{}\": {}{}\n", escape_json(name), c, if k + 1 < n { "," } else { "" });
